@@ -38,6 +38,7 @@ structure Sig where
   isStream    : Bool := false
   streamEnded : Bool := false          -- `ReceiveStream::terminated`
   alive       : Bool := true           -- the frame / future still exists
+  claimed     : Bool := false          -- popped by a peer that has not yet stored the final state (hand-off window)
   deriving DecidableEq, Repr, Inhabited
 
 /-- Where a message is. -/
@@ -117,6 +118,7 @@ inductive Label where
   -- blocked sync / timed waiters
   | complete (s : SigId)                           -- the waiter sees its final state and returns
   | expire (s : SigId)                             -- a timed waiter's deadline passes: cancel critical section
+  | finalize (s : SigId)                           -- the peer that popped waiter `s` stores its final state and wakes it
   -- futures
   | newSendFut (m : Msg)
   | pollSend (f : FutId) (w : WakerId)
@@ -163,14 +165,23 @@ def finalize (s : State) (i : SigId) (o : SigSt) : State :=
 def terminateList (s : State) (l : List SigId) : State :=
   l.foldl (fun s i => s.finalize i .term) s
 
-/-- `Signal::send`: write into a receive waiter's slot, then wake with `UNLOCKED`. -/
+/-- `Signal::send`, first half, by the sender that popped receive waiter `i` in its
+    critical section: the value goes into the waiter's slot; the final store is still to come
+    (`Label.finalize`).  Until then the waiter is in nobody's list and not final: the hand-off window. -/
 def deliverTo (s : State) (i : SigId) (m : Msg) : State :=
   match s.sigs[i]? with
   | none => s
-  | some g => ((s.setSig i { g with slot := some m }).finalize i .ok).setCust m (.slot i)
+  | some g => (s.setSig i { g with slot := some m, claimed := true }).setCust m (.slot i)
 
-/-- `Signal::recv`: read a send waiter's slot, then wake with `UNLOCKED`.  The
-    caller decides the new custody. -/
+/-- `Signal::recv`, first half, by the receiver that popped send waiter `i` with an empty
+    buffer: the value leaves the slot (the caller decides the new custody); final store to come. -/
+def claimFrom (s : State) (i : SigId) : State :=
+  match s.sigs[i]? with
+  | none => s
+  | some g => s.setSig i { g with slot := none, claimed := true }
+
+/-- `Signal::recv` performed *under the lock* (buffer refill, `drain_into`): read the slot and
+    store the final state in one go. -/
 def takeFrom (s : State) (i : SigId) : State :=
   match s.sigs[i]? with
   | none => s
@@ -191,6 +202,11 @@ def failBack (s : State) (m : Msg) (opt : Bool) : State :=
   if opt then s.setCust m .callerS else s.dropMsg m
 
 def newSig (s : State) (g : Sig) : State × SigId := ({ s with sigs := s.sigs ++ [g] }, s.sigs.length)
+
+/-- Number of alive waiters (blocked calls and futures) of a side.  Each of them borrows a
+    handle of that side, so the last handle of the side cannot be dropped meanwhile. -/
+def aliveSigs (s : State) (r : Role) : Nat :=
+  (s.sigs.filter (fun g => g.alive && g.role == r)).length
 
 /-- Withdraw the messages of terminated send waiters from the accepted order. -/
 def withdrawSlots (s : State) (l : List SigId) : State :=
@@ -234,7 +250,7 @@ def recvStep (s : State) (timed expired : Bool) : State × RecvBranch :=
     | some p => ((s1.setCust (s.slotMsg p) .queued).takeFrom p, .fromQueue v (some p))
   | (c1, .fromSender p) =>
     let m := s.slotMsg p
-    ((({ s with chan := c1, delivered := s.delivered ++ [m] }).giveR m).takeFrom p, .fromSender p)
+    ((({ s with chan := c1, delivered := s.delivered ++ [m] }).giveR m).claimFrom p, .fromSender p)
   | (c1, b) => ({ s with chan := c1 }, b)
 
 def recvRes : RecvBranch → (onEmpty : Res) → State → Res
@@ -321,6 +337,12 @@ def step (v : Variant) (s : State) : Label → Option (State × Res)
             else if v.timeoutDrop then some (s2.dropMsg m, .err .timeout)
             else some (s2.setCust m .leaked, .err .timeout)
           | _, _ => some (s1, .err .timeout)
+  | .finalize i =>
+    match s.sigs[i]? with
+    | none => none
+    | some g =>
+      if !g.claimed ∨ g.st ≠ .pending then none
+      else some ((s.setSig i { g with claimed := false }).finalize i .ok, .unit)
   | .newSendFut m =>
     if s.liveS = 0 ∨ s.cust m ≠ .fresh then none
     else
@@ -461,7 +483,9 @@ def step (v : Variant) (s : State) : Label → Option (State × Res)
     | .recv => if s.liveR = 0 then none else
         some ({ s with chan := s.chan.cloneCS .recv, liveR := s.liveR + 1 }, .unit)
   | .dropHandle side =>
-    if (match side with | .send => s.liveS | .recv => s.liveR) = 0 then none
+    -- safe Rust: a blocked call or a live future borrows a handle of its side
+    if (match side with | .send => s.liveS | .recv => s.liveR) = 0 ∨
+       ((match side with | .send => s.liveS | .recv => s.liveR) = 1 ∧ s.aliveSigs side ≠ 0) then none
     else
       let (c1, l) := s.chan.dropCS side
       let s1 := ((match side with
@@ -469,7 +493,7 @@ def step (v : Variant) (s : State) : Label → Option (State × Res)
         | .recv => { s with chan := c1, liveR := s.liveR - 1 }).withdrawSlots l).terminateList l
       -- the last handle of all frees the shared state: the buffer is destroyed with it
       if s1.liveS + s1.liveR = 0 then
-        some (({ s1 with chan := { s1.chan with queue := [] }, removed := s1.removed ++ s1.chan.queue }).dropMsgs s1.chan.queue, .unit)
+        some (({ s1 with chan := { s1.chan with queue := [], waitList := [] }, removed := s1.removed ++ s1.chan.queue }).dropMsgs s1.chan.queue, .unit)
       else some (s1, .unit)
   | .convert side =>
     if (match side with | .send => s.liveS | .recv => s.liveR) = 0 then none
